@@ -40,3 +40,30 @@ Proof.
   split; [unfold ops_noself, replay_ops; repeat (constructor; try exact I)|].
   vm_compute. repeat split; reflexivity.
 Qed.
+
+(** The PRE-fix chain ([run_prefix]) reaches the double acknowledgement from a FRESH chain: the governance proposal
+    creating a client under the own name is accepted first (fix a9e74e1 removed exactly this). *)
+Definition replay_ops_from_fresh : list op := (0, ARegisterClient chA 0 true) :: replay_ops.
+
+Theorem C05_selfclient_reachable_before_fix :
+  inv4 exP exA /\ noself exA /\ acklog_ok exP exA /\
+  let s := run_prefix exP exA replay_ops_from_fresh in
+  cnt (ackev 0 chB 1) (log (st_app s)) = 2%nat /\ cnt (ackev 1 chB 1) (log (st_app s)) = 2%nat /\
+  cnt (ackev 2 chB 1) (log (st_app s)) = 2%nat.
+Proof.
+  split; [exact exA_inv4|]. split; [reflexivity|]. split; [exact (acklog_ok_empty exP exA eq_refl)|].
+  vm_compute. repeat split; reflexivity.
+Qed.
+Print Assumptions C05_selfclient_reachable_before_fix.
+
+(** On HEAD the proposal is refused, the forged receive is rejected (no client for its claimed source), the second
+    acknowledgement is rejected with the state unchanged and every effect ran once. *)
+Theorem C05_selfclient_refused_on_head :
+  step exP exA (0, ARegisterClient chA 0 true) = (exA, false) /\
+  let s3 := run exP exA (firstn 4 replay_ops_from_fresh) in
+  step exP s3 (4, AAck (ack_of (pkt x61 x62 1)) cb_plain cb_plain cb_plain) = (s3, false) /\
+  let s := run exP exA replay_ops_from_fresh in
+  noself s /\ cnt (ackev 0 chB 1) (log (st_app s)) = 1%nat /\ cnt (ackev 1 chB 1) (log (st_app s)) = 1%nat /\
+  cnt (ackev 2 chB 1) (log (st_app s)) = 1%nat.
+Proof. vm_compute. repeat split; reflexivity. Qed.
+Print Assumptions C05_selfclient_refused_on_head.
